@@ -383,6 +383,15 @@ theorem J_loop (laws : BoxLaws K) (cur : Nat → Aabb3 K) (margin : K) (hm : (0 
       rw [this] at h; exact ⟨h, this⟩
     · exact ih _ _ _ _ (J_round laws cur margin hm first q num h) hr
 
+/-- `BoxInv` does not look at `root_aabb` -/
+theorem boxInv_syncRootAabb (q : Q K) (cur : Nat → Aabb3 K) (h : BoxInv q cur) : BoxInv (syncRootAabb q) cur := by
+  intro n nd hn hl
+  have hf : freshBoxes (syncRootAabb q) cur nd = freshBoxes q cur nd := by
+    unfold freshBoxes; simp only [syncRootAabb_nodes, syncRootAabb_proxies]
+  have := h n nd (by simpa using hn) (by simpa [Live] using hl)
+  unfold GoodNode at this ⊢
+  rw [hf]; exact this
+
 /-- **`refit` establishes the box invariant**: from a state satisfying `Inv`, `Tracked` and `DirtyQueued`, with a
 non-negative margin, whenever the loop finishes the result satisfies `BoxInv`, the work list is empty, no node is
 flagged DIRTY, and the topology invariant still holds. -/
@@ -396,9 +405,11 @@ theorem refit_establishes (laws : BoxLaws K) (q : Q K) (cur : Nat → Aabb3 K) (
       · exact Or.inl g
       · exact Or.inr ⟨d1, by simpa using d2⟩
     · intro n nd hn hdirty; simpa using hd n nd hn hdirty
-  obtain ⟨hJ, hempty⟩ := J_loop laws cur margin hm _ _ _ _ _ h0 hr
-  obtain ⟨hb, hnd⟩ := J_done cur r.1 hJ
-  exact ⟨hJ.inv, hb, hempty, hnd⟩
+  obtain ⟨r0, hr0, rfl⟩ := refit_eq q cur margin r hr
+  obtain ⟨hJ, hempty⟩ := J_loop laws cur margin hm _ _ _ _ _ h0 hr0
+  obtain ⟨hb, hnd⟩ := J_done cur r0.1 hJ
+  exact ⟨hJ.inv.of_topoEq (topoEq_syncRootAabb _), boxInv_syncRootAabb _ _ hb, by simpa using hempty,
+    fun n nd hn => hnd n nd (by simpa using hn)⟩
 
 theorem tracked_of_boxInv (q : Q K) (cur : Nat → Aabb3 K) (h : BoxInv q cur) : Tracked q cur :=
   fun n nd hn hl => Or.inl (h n nd hn hl)
